@@ -328,6 +328,36 @@ def check_est(case, ctx):
         if N > 1:
             cmp_rows(ctx, name, call(lambda: batch(a.copy(), m.copy())), [call(lambda i=i: single(a[i].copy(), m[i].copy())) for i in range(N)], TOL_EST,
                      sens=lambda i: sensitivity(single, a[i], m[i]))
+        # a recording with one unusable sample (an all-zero accelerometer or magnetometer row: a dropout) among ordinary ones: whatever the estimator
+        # does with that row, the other rows are the per-sample estimates - unless the single-item call refuses that sample in the same way
+        if N >= 3:
+            which = int(abs(float(a[0, 0])) * 1e6) % 2
+            a2, m2 = a.copy(), m.copy()
+            (a2 if which == 0 else m2)[1] = 0.0
+            ob = call(lambda: batch(a2.copy(), m2.copy()))
+            o_bad = call(lambda: single(a2[1].copy(), m2[1].copy()))
+            if not ob.ok and not o_bad.ok and ob.exc_name == o_bad.exc_name:
+                ctx.note("batch and single-item call refuse a dropped-out sample with the same %s: equal behaviour" % ob.exc_name)
+            elif ctx.returned(ob, clause="no-exception[recording with one dropped-out sample]", route=name):
+                Bv = ob.value
+                okshape = Bv is not None and np.asarray(Bv).dtype != object and len(np.asarray(Bv)) == N
+                if ctx.ok("a recording with one dropped-out sample still gives one row per sample", bool(okshape), {"got": "None" if Bv is None else list(np.shape(Bv))}, route=name):
+                    Bv = np.asarray(Bv, float)
+                    worst = 0.0
+                    for i in range(N):
+                        if i == 1:
+                            continue
+                        so = call(lambda i=i: single(a2[i].copy(), m2[i].copy()))
+                        if not so.ok or so.value is None:
+                            continue
+                        sv = np.asarray(so.value, float)
+                        if sv.shape != Bv[i].shape or not (np.all(np.isfinite(sv)) and np.all(np.isfinite(Bv[i]))):
+                            continue
+                        d_ = float(np.abs(Bv[i] - sv).max())
+                        if name in BRANCH_CUT_ROUTES and sv.shape == (4,):
+                            d_ = min(d_, float(np.abs(Bv[i] + sv).max()))
+                        worst = max(worst, d_)
+                    ctx.le("the usable rows of a recording with one dropped-out sample equal the per-sample estimates", worst, max(TOL_EST, 1e-9), {"dropped": "acc" if which == 0 else "mag"}, route=name)
         # one-row batch and one-sample constructor call must equal estimate() with the same options
         cmp_rows(ctx, name, call(lambda: np.asarray(batch(a[:1].copy(), m[:1].copy()))), [call(lambda: single(a[0].copy(), m[0].copy()))], TOL_EST,
                  what="one-row batch = single item", sens=lambda i: sensitivity(single, a[0], m[0]))
